@@ -467,6 +467,28 @@ where
         let index = hash as usize % self.shards;
         entries_by_shard[index].insert(p_entry.key, Arc::new(entry));
       }
+      // Tell each shard's policy about the entries it now holds. A policy can only nominate
+      // keys it tracks, so without this the restored entries could never be evicted and the
+      // cache would stay above its capacity for good.
+      for index in 0..entries_by_shard.len() {
+        let restored: Vec<(K, u64)> = entries_by_shard[index]
+          .iter()
+          .map(|(key, entry)| (key.clone(), entry.cost()))
+          .collect();
+        for (key, cost) in restored {
+          if let crate::policy::AdmissionDecision::AdmitAndEvict(victims) =
+            cache_policy[index].on_admit(&key, cost)
+          {
+            for victim in victims {
+              let victim_index = hash_key(&self.hasher, &victim) as usize % self.shards;
+              if let Some(removed) = entries_by_shard[victim_index].remove(&victim) {
+                cache_policy[victim_index].on_remove(&victim);
+                total_cost -= removed.cost();
+              }
+            }
+          }
+        }
+      }
       metrics.current_cost.store(total_cost, Ordering::Relaxed);
 
       // Populate the store shard by shard.
